@@ -197,7 +197,7 @@ fn k_exd_read_row_subrows() {
 }
 
 
-//@unit props=C05 label=S tier=thorough fn=exd::EXD::read_row bound="page with 2 index entries in any id order (ids symbolic, distinct); the wanted row is listed second; 1 column (UInt8 at 0); 16 data bytes symbolic" stubs=fmt::format
+//@unit props=C05 label=S tier=parked fn=exd::EXD::read_row bound="page with 2 index entries in any id order (ids symbolic, distinct); the wanted row is listed second; 1 column (UInt8 at 0); 16 data bytes symbolic" stubs=fmt::format
 //@desc a stored row is found wherever it is listed in the page index, whatever ids precede it (the index need not be sorted)
 #[kani::proof]
 #[kani::unwind(18)]
